@@ -538,3 +538,14 @@ func VerifC05_Prepare() {
 	vnd.Assert(err == nil && duty.RANDAOReveal() == randao.sig && duty.Account() != nil, "C05.prepare.duty-filled")
 	vnd.Cover("C05.prepare.ok")
 }
+
+// VerifC20_UnblindGoroutines: the proposal and its unblinding goroutines end
+// whatever the relays do (the job's context is never cancelled in production).
+func VerifC20_UnblindGoroutines() {
+	e := newC05Env(vnd.IntRange("relays", 1, 2), 2)
+	vnd.Assume(e.blinded && e.pslot == e.slot)
+	e.s.Propose(context.Background(), e.duty)
+	left := vnd.Quiesce()
+	vnd.Assert(left == 0, "C20.unblind.no-goroutine-left-blocked")
+	vnd.Cover("C20.unblind.returned")
+}
